@@ -508,7 +508,7 @@ package casket
 //@ func ListPlugins$1
 //@   requires p != nil
 
-//@ unit casket_rest_sweep props=C08,C16 files=casket.go,sigtrap.go,sigtrap_posix.go nilchecks=on nonnil_params=on exclude=`casket\.(Stop|startWithListenerFds|startWithListenerFds\$1|startServers|startServers\$[0-9]+|executeDirectives|executeDirectives\$[0-9$]+|ValidateAndExecuteDirectives|IsLoopback|IsInternal|allShutdownCallbacks|executeShutdownCallbacks|executeShutdownCallbacks\$1|trapSignalsPosix\$1)$|casket\.Instance\)\.(Restart|Restart\$1|Stop|ShutdownCallbacks)$` filter=`.`
+//@ unit casket_rest_sweep props=C08,C16 files=casket.go,sigtrap.go,sigtrap_posix.go nilchecks=on nonnil_params=on exclude=`casket\.(Stop|Start|startWithListenerFds|startWithListenerFds\$1|startServers|startServers\$[0-9]+|executeDirectives|executeDirectives\$[0-9$]+|ValidateAndExecuteDirectives|IsLoopback|IsInternal|allShutdownCallbacks|executeShutdownCallbacks|executeShutdownCallbacks\$1|trapSignalsPosix\$1)$|casket\.Instance\)\.(Restart|Restart\$1|Stop|ShutdownCallbacks)$` filter=`.`
 //@ // the rest of the life-cycle code (Start, process-wide Stop, Casketfile loading, pid file, signal traps): safety sweep
 //@ use @verif/specs/stdlib.spec:stdlib
 
@@ -542,3 +542,14 @@ package casket
 //@ func EmitEvent$1
 //@   may_panic
 //@   ensures [delivery_goes_on_after_a_failing_hook] result
+
+//@ unit start_entry props=C08,C16 nilchecks=on nonnil_params=on filter=`casket\.Start$`
+//@ // C08 "a failed attempt leaves the running sites untouched": Start only ever works on the instance it makes - it never
+//@ // calls the process-wide Stop (which stops EVERY running instance) or the Stop of another instance, whatever fails
+//@ use @verif/specs/stdlib.spec:stdlib
+//@ func Stop
+//@   watch
+//@   requires [starting_a_configuration_never_stops_the_running_ones] false
+//@ func (*Instance).Stop
+//@   watch
+//@   requires [starting_a_configuration_never_stops_the_running_ones] false
